@@ -1498,6 +1498,12 @@ func (x *Exec) evalComposite(e *ast.CompositeLit, st *State) (Value, types.Type)
 	if t == nil {
 		engineFail("composite literal without type")
 	}
+	if pt, ok := t.Underlying().(*types.Pointer); ok {
+		// an element of a []*T literal written without &T: the pointer to a new struct
+		if _, isStruct := pt.Elem().Underlying().(*types.Struct); isStruct {
+			t = pt.Elem()
+		}
+	}
 	switch u := t.Underlying().(type) {
 	case *types.Struct:
 		if !x.isLocStruct(t) {
